@@ -36,8 +36,9 @@
 (***************************************************************************)
 EXTENDS Integers, Sequences, FiniteSets, TLC
 
-CONSTANTS Files,      \* canonical file ids (strings); all live in the root directory
-          Root,       \* the entry file
+CONSTANTS Files,      \* file ids (strings)
+          Root,       \* the entry file (lives in the root directory)
+          SubFiles,   \* the files that live in the subdirectory `d`; the others live in the root directory
           MaxDepth    \* stack depth at which a run is declared an overflow
 
 VARIABLES
@@ -56,10 +57,18 @@ Kinds     == {"use", "forward", "import", "loadcss"}
 Spellings == {"plain", "dot", "dd"}
 IsModuleKind(k) == k \in {"use", "forward"}
 
-(* URL as written: a sequence of path segments *)
-Url(s) == CASE s.sp = "plain" -> <<s.target>>
-            [] s.sp = "dot"   -> <<".", s.target>>
-            [] s.sp = "dd"    -> <<"d", "..", s.target>>
+(* where a file lives, and its canonical name *)
+DirOfFile(f) == IF f \in SubFiles THEN <<"d">> ELSE <<>>
+NameOfFile(f) == DirOfFile(f) \o <<f>>
+
+(* URL as written in file `imp`: a sequence of path segments leading from  *)
+(* imp's directory to the target, in one of three spellings                 *)
+Base(imp, t) == IF DirOfFile(imp) = DirOfFile(t) THEN <<>>
+                ELSE IF DirOfFile(imp) = <<>> THEN <<"d">> ELSE <<"..">>
+Detour(imp)  == IF DirOfFile(imp) = <<>> THEN <<"d", "..">> ELSE <<"..", "d">>
+UrlIn(imp, s) == CASE s.sp = "plain" -> Base(imp, s.target) \o <<s.target>>
+                   [] s.sp = "dot"   -> <<".">> \o Base(imp, s.target) \o <<s.target>>
+                   [] s.sp = "dd"    -> Detour(imp) \o Base(imp, s.target) \o <<s.target>>
 
 (* input/context.rs relative(): directory part of the importer's name ++ url *)
 DirOf(name)        == SubSeq(name, 1, Len(name) - 1)
@@ -109,8 +118,8 @@ Stmt    == prog[Top.file][Top.pc]
 (* joined with the URL, normalised (only the textual deviations keep the   *)
 (* spelling)                                                                *)
 TgtName == IF Dev \cap {"lock_key_textual", "modcache_key_textual"} # {}
-           THEN Rel(Top.name, Url(Stmt))
-           ELSE Canon(Rel(Top.name, Url(Stmt)))
+           THEN Rel(Top.name, UrlIn(Top.file, Stmt))
+           ELSE Canon(Rel(Top.name, UrlIn(Top.file, Stmt)))
 
 (* Context::lock_loading, reached from find_file: the file is found, read   *)
 (* and locked under its key; a key that is already present is a loop.       *)
@@ -229,9 +238,14 @@ StackFiles == {stack[i].file : i \in DOMAIN stack}
 (* the lock discipline: exactly the files on the stack are locked          *)
 LockDiscipline ==
   (result = "run" /\ Dev = {}) =>
-     \/ loading = {<<stack[i].file>> : i \in DOMAIN stack}
+     \/ loading = {NameOfFile(stack[i].file) : i \in DOMAIN stack}
      \/ (Top.phase \in {"locked", "unlock"} /\
-         loading = {<<stack[i].file>> : i \in DOMAIN stack} \cup {<<Stmt.target>>})
+         loading = {NameOfFile(stack[i].file) : i \in DOMAIN stack} \cup {NameOfFile(Stmt.target)})
+
+(* the URL algebra: every spelling written in any file resolves to the       *)
+(* canonical name of its target                                              *)
+UrlsResolve == \A f \in Files : \A i \in DOMAIN prog[f] :
+                  Canon(DirOfFile(f) \o UrlIn(f, prog[f][i])) = NameOfFile(prog[f][i].target)
 
 (* no file is on the stack twice, so the depth is bounded by the file count *)
 DepthBound == Dev = {} => (Len(stack) <= Cardinality(Files) /\ Cardinality(StackFiles) = Len(stack))
